@@ -189,10 +189,14 @@ def run_c12(res, tier, seed):
         nver = 3 if big else rng.randrange(3, 7)
         files, texts, qs = make_case(random.Random(rng.randrange(1 << 30)), nfun, nver)
         lines = ws_lines(files)
-        for k in range(3 if big else runs_per):
+        for k in range(5 if big else runs_per):
             s = rng.randrange(1, 1 << 30)
             nr = rng.choice([1, 2, 4, 8])
             scale = rng.choice([0, 50, 500, 3000])
+            if big:
+                # on the big module a query runs for a second or more: the change arrives at once, after a few
+                # milliseconds, and after tenths of a second (a query that has been running for long is cancelled too)
+                scale = [0, 3000, 60000, 150000, 400000][k]
             lines.append(f"race\t{s}\t{nr}\t0\t{';'.join(qs)}\t{scale}\t" + "\t".join(hexs(t) for t in texts[1:]))
             meta.append((c, len(lines) - 1, len(qs), nfun, nver, nr, scale))
         reqs.append(lines)
